@@ -342,5 +342,13 @@ def run(ctx):
             k = next(iter(ts[0])) if one else '?'
             ctx.verdict(one and names, rule, '%s:%s:player-%s' % (rule, suf.split('::')[-1], k), 'player p\'s named input is densified against player p\'s multi-action and single-action tables', f.where(bi), 'positions %s' % [sorted(x) for x in ts],
                         breaks='a player\'s strategy is validated against the other player\'s infosets')
-        # result array order
-        r = strip_refs(q.ret_expr(f))
+        # every successful return lies behind both validations (no early Ok in the entry point)
+        oks = [(bi, st) for bi, st, e in q.agg_sites(f, 'result::Result', 'Ok') if 'Strategies' in f.locals[st['pl']['l']]['ty']]
+        if not oks:
+            ctx.anchor_lost('C14.ok-through-import', '%s: the Ok(..) result' % suf, 'no Ok aggregate found')
+        else:
+            bad = [bi for bi, st in oks if not all(f.dominates(cb, bi) for cb, _, _ in cs)]
+            ctx.verdict(not bad, 'C14.ok-through-import', 'C14.ok-through-import:%s' % suf.split('::')[-1],
+                        'every Ok(..) built by the entry point is dominated by the validating import of both players\' input', f.where(bad[0] if bad else oks[0][0]),
+                        '%d Ok site(s), %d not behind both %s calls' % (len(oks), len(bad), callee),
+                        breaks='some inputs (e.g. on a game without multi-action infosets) are accepted without being validated')
